@@ -147,15 +147,32 @@ func spShapes(e enum.Embed, k, level int) *BoolSpace {
 // spThree: B8 - two subject triangles and one clip triangle, each every stride-th member of P(3,3):
 // three mutually interacting paths (winding two deep, coincident edges of different paths).
 func spThree(e enum.Embed, stride uint64, level int) *BoolSpace {
+	return spThreeRoles(e, stride, 2, level)
+}
+
+// spThreeRoles: the same three triangles with nSubj of them as subject paths (3: no clip, 1: two clip paths).
+func spThreeRoles(e enum.Embed, stride uint64, nSubj, level int) *BoolSpace {
 	n := (enum.PathCount(3, 3) + stride - 1) / stride
-	return &BoolSpace{Name: fmt.Sprintf("B8/(every %d-th of P(3,3))^2 x every %d-th of P(3,3)/%s", stride, stride, e.Name), Level: level, Size: n * n * n, E: e,
+	name := fmt.Sprintf("B8/(every %d-th of P(3,3))^2 x every %d-th of P(3,3)/%s", stride, stride, e.Name)
+	if nSubj != 2 {
+		name = fmt.Sprintf("B8/%d subject + %d clip triangles, every %d-th of P(3,3) each/%s", nSubj, 3-nSubj, stride, e.Name)
+	}
+	return &BoolSpace{Name: name, Level: level, Size: n * n * n, E: e,
 		Gen: func(idx uint64, g *genBuf) (Paths, Paths) {
 			g.reset()
 			g.p[0] = enum.UnrankPath(idx%n*stride, 3, 3, e, g.p[0])
 			g.p[1] = enum.UnrankPath((idx/n)%n*stride, 3, 3, e, g.p[1])
 			g.p[2] = enum.UnrankPath(idx/(n*n)*stride, 3, 3, e, g.p[2])
-			g.s = append(g.s, g.p[0], g.p[1])
-			g.c = append(g.c, g.p[2])
+			for i := 0; i < 3; i++ {
+				if i < nSubj {
+					g.s = append(g.s, g.p[i])
+				} else {
+					g.c = append(g.c, g.p[i])
+				}
+			}
+			if nSubj == 3 {
+				return g.s, nil
+			}
 			return g.s, g.c
 		}}
 }
@@ -204,7 +221,8 @@ func boolSpaces(tier string) []*BoolSpace {
 		for _, e := range region {
 			out = append(out, spPair("B2", e, 3, 3, 3, 4), spTwo(e, 3, 3, 4))
 		}
-		out = append(out, spSingle(enum.Eax, 3, 6, 4), spPair("B2", enum.Ean, 3, 3, 3, 4), spThree(enum.Eax, 10, 5), spThree(enum.Ean, 13, 5), spThree(enum.Esh, 13, 5), spTwoLevel(7, 3, 5))
+		out = append(out, spSingle(enum.Eax, 3, 6, 4), spPair("B2", enum.Ean, 3, 3, 3, 4), spThree(enum.Eax, 10, 5), spThree(enum.Ean, 13, 5), spThree(enum.Esh, 13, 5), spTwoLevel(7, 3, 5),
+			spThreeRoles(enum.Eax, 13, 1, 5), spThreeRoles(enum.Eax, 13, 3, 5), spThreeRoles(enum.Ean, 17, 1, 5), spThreeRoles(enum.Ean, 17, 3, 5))
 		return out
 	}
 	all := []enum.Embed{enum.Eax, enum.Esh, enum.Ean, enum.Ebig}
@@ -220,7 +238,8 @@ func boolSpaces(tier string) []*BoolSpace {
 	for _, e := range []enum.Embed{enum.Eax, enum.Ean} {
 		out = append(out, spPair("B4", e, 4, 3, 3, 6))
 	}
-	out = append(out, spThree(enum.Eax, 5, 6), spThree(enum.Esh, 7, 6), spThree(enum.Ean, 7, 6), spThree(enum.Eax, 3, 7))
+	out = append(out, spThree(enum.Eax, 5, 6), spThree(enum.Esh, 7, 6), spThree(enum.Ean, 7, 6), spThree(enum.Eax, 3, 7),
+		spThreeRoles(enum.Eax, 5, 1, 6), spThreeRoles(enum.Eax, 5, 3, 6), spThreeRoles(enum.Ean, 7, 1, 6), spThreeRoles(enum.Ean, 7, 3, 6), spThreeRoles(enum.Esh, 7, 1, 6), spThreeRoles(enum.Esh, 7, 3, 6))
 	out = append(out, spShapes(enum.Eax, 5, 6), spTwoLevel(1, 1, 6))
 	return out
 }
